@@ -39,7 +39,7 @@ def run(ctx):
     single = dict(MaxFail=1, MaxCrash=1, MaxFaults=1, MaxRec=5)
     pairs = dict(MaxFail=2, MaxCrash=2, MaxFaults=2, MaxRec=5)
     _, pred1 = sb.model_check(ctx, "c11-single", sb.consts("c11", sb.C11_KINDS, **single), invs, props=["C11_Recoverable"])
-    _, pred2 = sb.model_check(ctx, "c11-pairs", sb.consts("c11", sb.C11_KINDS, **pairs), invs, timeout=2400)
+    _, pred2 = sb.model_check(ctx, "c11-pairs", sb.consts("c11", sb.C11_KINDS, **pairs), invs, timeout=2400, skip=pred1)
     scheds, model_k = sb.export_c11(ctx, sb.C11_KINDS, 1, 5, "single")
     sb.check_K(ctx, dry, model_k)
     if ctx.quick:
